@@ -41,8 +41,10 @@ def reconBlk (V : Recon.Variant) (r : ReconSt) (idx : Nat) (bytes : List Nat) (f
   let (s1, res) := Recon.handleBlock V F r.P r.vbits r.numRows r.s idx (bytesToNat bytes) bytes.length
   let newCalls := (s1.log.take (s1.calls - c0)).reverse
   let cs := if newCalls.isEmpty then "-" else ",".intercalate (newCalls.map (callStr s1.bs))
+  let dsts := newCalls.filter (fun c => match c with | .dStore _ _ => true | _ => false)
+  let dst := if dsts.isEmpty then "-" else ",".intercalate (dsts.map (callStr s1.bs))
   ({ r with s := s1 },
-   s!"res={resStr res} ; calls={cs} ; l={s1.l} ; done={toHex (natToBytesTrim s1.done)} ; used={toHex (natToBytesTrim s1.used)}")
+   s!"res={resStr res} ; calls={cs} ; dst={dst} ; nc={newCalls.length} ; l={s1.l} ; done={toHex (natToBytesTrim s1.done)} ; used={toHex (natToBytesTrim s1.used)}")
 
 def reconEnd (r : ReconSt) : String :=
   let ds := (List.range r.s.n).map fun i =>
